@@ -1540,3 +1540,82 @@ RAW_MODELS[:0] = [
     (r'^core::str::<impl str>::eq_ignore_ascii_case$', m_eq_ignore_case),
 ]
 MODELS = [(re.compile(p), f) for p, f in RAW_MODELS]
+
+
+# ------------------------------------------------------------------ filter(...).count() with a symbolic predicate
+def m_iter_filter_sym(ex, st, a, c, m):
+    return [(True, Adt('FilterIter', None, [a[0], a[1], ex.closure_text(c)]))]
+
+
+def m_iter_count(ex, st, a, c, m):
+    it = ex.deref(a[0])
+    if it.ty == 'FilterIter':
+        src, clo, clo_text = it.fields
+        tot = z3.IntVal(0)
+        for x in _iter_items(ex, st, src):
+            r = ex.call_closure(st, clo_text, clo, [Ref(Cell(x), [])])
+            if len(r) != 1:
+                raise Unsupported('forking closure in filter')
+            tot = tot + z3.If(r[0][1], 1, 0)
+        return [(True, z3.simplify(tot))]
+    return [(True, z3.IntVal(len(_iter_items(ex, st, it))))]
+
+
+RAW_MODELS[:0] = [
+    (r'^<.* as Iterator>::filter$', m_iter_filter_sym), (r'^<.* as Iterator>::count$', m_iter_count),
+]
+MODELS = [(re.compile(p), f) for p, f in RAW_MODELS]
+
+
+# ------------------------------------------------------------------ format!: single-placeholder Display templates are rendered, anything else stays opaque
+def m_fmt_arg(kind):
+    def f(ex, st, a, c, m):
+        return [(True, Adt('FmtArg', None, [kind, ex.deref(a[0])]))]
+    return f
+
+
+def m_arguments_new(ex, st, a, c, m):
+    tmpl = a[0]
+    args = ex.deref(a[1]) if len(a) > 1 else []
+    return [(True, Adt('FmtArguments', None, [tmpl, args if isinstance(args, list) else []]))]
+
+
+def display_string(ex, v):
+    """Display text of a value as a Str term, or None if not modelled"""
+    v = ex.deref(v)
+    if isinstance(v, z3.ExprRef):
+        if v.sort() == StrS:
+            return v
+        if z3.is_int(v):
+            return f_numstr(v)
+        if z3.is_bool(v):
+            return z3.If(v, lit('true'), lit('false'))
+        return None
+    if isinstance(v, Adt):
+        if v.ty == 'Uint128':
+            return f_numstr(v.fields[0])
+        if v.ty == 'Addr':
+            return v.fields[0]
+        if v.ty == 'Decimal':
+            return f_deccanon(v.fields[3]) if v.fields[3] is not None else f_decstr(v.fields[0], v.fields[1])
+    return None
+
+
+def m_format_render(ex, st, a, c, m):
+    fa = a[0]
+    if isinstance(fa, Adt) and fa.ty == 'FmtArguments':
+        tmpl, args = fa.fields
+        if isinstance(tmpl, Opaque) and tmpl.tag == 'bytes' and tmpl.a and tmpl.a[0] == 'b"\\xc0\\x00"' and len(args) == 1:
+            arg = args[0]
+            if isinstance(arg, Adt) and arg.ty == 'FmtArg' and arg.fields[0] == 'display':
+                s_ = display_string(ex, arg.fields[1])
+                if s_ is not None:
+                    return [(True, s_)]
+    return [(True, Opaque('Fmt', next(ex.fresh)))]
+
+
+RAW_MODELS[:0] = [
+    (r'^core::fmt::rt::Argument::new_display$', m_fmt_arg('display')), (r'^core::fmt::rt::Argument::new_debug$', m_fmt_arg('debug')),
+    (r'^Arguments::new$|^Arguments::new_const$', m_arguments_new), (r'^format$', m_format_render),
+]
+MODELS = [(re.compile(p), f) for p, f in RAW_MODELS]
